@@ -145,7 +145,26 @@ def rule_table(ctx):
 def rule_merge_order(ctx):
     b = ctx.body('payload::history::PayloadHistory::delta_since')
     ms = b.calls('payload::delta::PayloadDelta::merge')
-    ctx.floor('prov', 'merge call in delta_since', len(ms), 1)
+    folds = []
+    if not ms:
+        # `iter.fold(first, |merged, delta| merged.merge(delta))`: the accumulator is the closure's first parameter
+        for c in ctx.closures(b):
+            for s in c.calls('payload::delta::PayloadDelta::merge'):
+                params = [d['name'] for d in sorted((d for d in c.rec.get('debug', []) if d.get('arg')), key=lambda d: d['arg'])]
+                params = [x for x in params if not x.startswith('_') or True]
+                recv, arg = arg_desc(s, 0), arg_desc(s, 1)
+                acc = params[-2] if len(params) >= 2 else None
+                nxt = params[-1] if params else None
+                folds.append(s)
+                ctx.bodies.add(c.nid)
+                ctx.check(acc is not None and acc in recv and (nxt or '?') not in recv, 'prov', 'delta_since:merge:receiver=accumulator',
+                          'fold accumulator .merge(next delta)',
+                          'in the fold closure PayloadDelta::merge is called with receiver `%s` and argument `%s`: the accumulated (older) '
+                          'delta must be the receiver' % (recv, arg), loc=s.loc())
+                ctx.check(nxt is not None and nxt in arg, 'prov', 'delta_since:merge:argument=next-delta', 'argument is the next delta',
+                          'merge argument is `%s`' % arg, loc=s.loc())
+        ctx.check(bool(b.calls('re:Iterator(>)?::fold$')) or not folds, 'prov', 'delta_since:merge-in-fold', 'merge closure is driven by fold', 'merge closure not driven by fold')
+    ctx.floor('prov', 'merge call in delta_since', len(ms) + len(folds), 1)
     for s in ms:
         recv = arg_desc(s, 0)
         arg = arg_desc(s, 1)
